@@ -109,17 +109,19 @@ type action struct {
 }
 
 type script struct {
-	Impl       string     `json:"impl"`
-	Family     string     `json:"family"`
-	ValueKind  string     `json:"value_kind"`
-	Keys       []keyDef   `json:"keys"`
-	DutyStatus []string   `json:"duty_deadline_status"`
-	Readers    int        `json:"readers"`
-	ReaderKeys []int      `json:"reader_keys"`
-	Mutators   []bool     `json:"reader_scribbles_its_result"`
-	Phases     [][]action `json:"phases"`
-	ValueYield int        `json:"value_yield_mode"`
-	DLYield    int        `json:"deadliner_yield_mode"`
+	Impl      string `json:"impl"`
+	Family    string `json:"family"`
+	ValueKind string `json:"value_kind"`
+	// SameSigConflicts: the third content of every key has the signature bytes of the first
+	SameSigConflicts bool       `json:"third_content_reuses_first_signature,omitempty"`
+	Keys             []keyDef   `json:"keys"`
+	DutyStatus       []string   `json:"duty_deadline_status"`
+	Readers          int        `json:"readers"`
+	ReaderKeys       []int      `json:"reader_keys"`
+	Mutators         []bool     `json:"reader_scribbles_its_result"`
+	Phases           [][]action `json:"phases"`
+	ValueYield       int        `json:"value_yield_mode"`
+	DLYield          int        `json:"deadliner_yield_mode"`
 }
 
 var plainTypes = []core.DutyType{
@@ -189,6 +191,7 @@ func generate(rng *rand.Rand, impl string, acted *atomic.Int64) *generated {
 			sc.ValueKind = "core.SignedVoluntaryExit"
 		}
 	}
+	sc.SameSigConflicts = rng.Intn(2) == 0
 	for len(g.duties) < nDuties {
 		d := core.Duty{Slot: uint64(1 + rng.Intn(8)), Type: syncType}
 		if !sync_ {
@@ -242,19 +245,25 @@ func generate(rng *rand.Rand, impl string, acted *atomic.Int64) *generated {
 		for j := 0; j < 3; j++ {
 			id := ki*3 + j + 1
 			ki, k := ki, k
+			// in every second scenario the third content of a key carries the signature bytes of the
+			// first: different data under one signature
+			sigID := id
+			if j == 2 && sc.SameSigConflicts {
+				sigID = ki*3 + 1
+			}
 			var mk func() core.SignedData
 			switch sc.ValueKind {
 			case "harness-probe":
 				y := g.valY
-				mk = func() core.SignedData { return newProbeData(id, ki, y) }
+				mk = func() core.SignedData { return newProbeDataSig(id, sigID, ki, y) }
 			case "core.SignedRandao":
-				mk = func() core.SignedData { return newRandao(id) }
+				mk = func() core.SignedData { return newRandao(id, sigID) }
 			case "core.SignedVoluntaryExit":
-				mk = func() core.SignedData { return newExit(id) }
+				mk = func() core.SignedData { return newExit(id, sigID) }
 			case "core.SyncCommitteeSelection":
-				mk = func() core.SignedData { return newSelection(id, k.Duty.Slot, k.Sub) }
+				mk = func() core.SignedData { return newSelection(id, sigID, k.Duty.Slot, k.Sub) }
 			default:
-				mk = func() core.SignedData { return newContribution(id, k.Duty.Slot, k.Sub) }
+				mk = func() core.SignedData { return newContribution(id, sigID, k.Duty.Slot, k.Sub) }
 			}
 			fp, err := fingerprint(mk())
 			if err != nil {
